@@ -39,7 +39,7 @@ type c34Gen struct {
 }
 
 func (g *c34Gen) word() string {
-	w := []string{"x", "abc", "-n", "0", "12", "'q;q'", "\"d|d\"", "(b;b)", "\\;", "\\|", "%(p q)", "'${ c34u }'", "{ c34u }", "'c34u'", "\\$x", "k=v", "a:b", "<err>", "<!out>", "[1]", "é日"}
+	w := []string{"x", "abc", "-n", "0", "12", "'q;q'", "\"d|d\"", "(b;b)", "\\;", "\\|", "%(p q)", "'${ c34u }'", "{ c34u }", "'c34u'", "\\$x", "k=v", "a:b", "<err>", "<!out>", "[1]", "é日", "x\\\\", "\\\\", "a\\\\\\;", "y\\\\", "\\\\\\\\", "z\\\\"}
 	return w[g.r.Intn(len(w))]
 }
 
@@ -149,7 +149,7 @@ func (g *c34Gen) command(depth int, unsafeOK bool) string {
 	return c
 }
 
-var c34Seps = []string{" | ", "|", " -> ", "->", "; ", ";", " && ", "&&", " || ", "||", " => ", "=>", "\n", " ? ", " |> c34.txt; ", " >> c34.txt; ", "|>c34.txt;", " ?: ", " ?? ", " ;", " |", " ->"}
+var c34Seps = []string{" | ", "|", " -> ", "->", "; ", ";", " && ", "&&", " || ", "||", " => ", "=>", "\n", " ? ", " |> c34.txt; ", " >> c34.txt; ", "|>c34.txt;", " ?: ", " ?? ", " ;", " |", " ->", " ~> c34.txt; ", "~>c34.txt;", "->", "=>"}
 
 func (g *c34Gen) line(depth, n int) string {
 	var b strings.Builder
